@@ -162,8 +162,13 @@ def collect(docs, classes):
             nm = n.get('name', '')
             for c in n.get('inner', []):
                 walk(c, nm if nm in classes else cls)
-        elif k in ('ClassTemplateSpecializationDecl', 'ClassTemplatePartialSpecializationDecl'):
-            return       # patterns only
+        elif k == 'ClassTemplatePartialSpecializationDecl':
+            # a partial specialization is a pattern of its own (e.g. the array forms of the deleters): listed as <name>#partial
+            nm = n.get('name', '')
+            for c in n.get('inner', []):
+                walk(c, (nm + '#partial') if nm in classes else cls)
+        elif k == 'ClassTemplateSpecializationDecl':
+            return       # instantiations: patterns only
         elif k in ('CXXMethodDecl', 'CXXConstructorDecl', 'CXXDestructorDecl', 'FunctionTemplateDecl') and cls:
             if k == 'FunctionTemplateDecl':
                 for c in n.get('inner', []):
@@ -172,7 +177,7 @@ def collect(docs, classes):
             body = [x for x in n.get('inner', []) if x.get('kind') == 'CompoundStmt']
             if not body:
                 return
-            CUR_CLASS[0] = cls
+            CUR_CLASS[0] = cls.split('#')[0]
             ev = []
             # constructor member initialisers
             for x in n.get('inner', []):
